@@ -54,6 +54,16 @@ func (ts *treeStorage) IsRegistered(id TreeID) bool {
 	return ok
 }
 
+// IsRequested returns true when the tree has been registered and has not been
+// received (or set locally) yet
+func (ts *treeStorage) IsRequested(id TreeID) bool {
+	ts.Lock()
+	defer ts.Unlock()
+
+	tree, ok := ts.trees[id]
+	return ok && tree == nil
+}
+
 // Get returns the tree if it exists or nil
 func (ts *treeStorage) Get(id TreeID) *Tree {
 	ts.Lock()
